@@ -198,3 +198,14 @@ impl DerefMut for Delimited {
         &mut self.base
     }
 }
+
+/// Verification hooks (only with `--cfg sqruff_verif`): read-only accessors.
+#[cfg(sqruff_verif)]
+impl Delimited {
+    pub fn verif_delimiter(&self) -> &Matchable {
+        &self.delimiter
+    }
+    pub fn verif_optional(&self) -> bool {
+        self.optional
+    }
+}
